@@ -127,8 +127,9 @@ def quote_fragment(data):
     return out
 
 
-def field(text, vars=()):
-    line = fgetline(text)
+def field(text, vars=(), already_read=False):
+    seen_dirs = []
+    line = text if already_read else fgetline(text)
     if line is None:
         return None
     e = expand(line, vars)
@@ -143,8 +144,108 @@ def field(text, vars=()):
             continue                 # empty fragments are dropped
         if len(a) < 2 or a[0] != '-' or not (('a' <= a[1] <= 'z') or ('A' <= a[1] <= 'Z')):
             return None              # untyped fragments are merged into their neighbours: declined
-        if a[1] in 'IL' or a.startswith('-framework') or a.startswith('-isystem') or \
-                a.startswith('-idirafter'):
-            return None              # directory fragments are filtered / reordered: declined
+        if a.startswith('-framework') or a.startswith('-isystem') or a.startswith('-idirafter'):
+            return None              # merged with the following fragment: declined
+        if a[1] in 'IL':
+            # directory fragments: system directories are filtered, duplicates are merged
+            # (-I keeps the first, -L too); the model declines both situations
+            d = _collapse(a[2:])
+            if d == '' or _is_system_dir(d):
+                return None
+            a = a[:2] + d
+            for b in seen_dirs:
+                if b == a:
+                    return None
+            seen_dirs.append(a)
+        elif '//' in a:
+            return None              # pkgconf also normalises path-like data of other fragments
         out += a[:2] + quote_fragment(a[2:]) + ' '
+    return out
+
+
+SYSTEM_DIRS = ['/usr/include', '/usr/lib', '/lib', '/usr/lib64', '/lib64', '/usr/lib/x86_64-linux-gnu',
+               '/lib/x86_64-linux-gnu', '/usr/local/lib/x86_64-linux-gnu']
+
+
+def _collapse(d):
+    """pkgconf normalises directory fragments: runs of '/' become one"""
+    out = ''
+    prev = ''
+    for c in d:
+        if not (c == '/' and prev == '/'):
+            out += c
+        prev = c
+    return out
+
+
+def _is_system_dir(d):
+    while len(d) > 1 and d[-1] == '/':
+        d = d[:-1]
+    for x in SYSTEM_DIRS:
+        if d == x:
+            return True
+    return False
+
+
+KEYCHARS = 'abcdefghijklmnopqrstuvwxyzABCDEFGHIJKLMNOPQRSTUVWXYZ0123456789_.'
+WS = ' \t\n\r\x0b\x0c'
+
+
+def pcfile(text, pcfiledir):
+    """read a whole .pc file the way libpkgconf parser.c does: per line the comment / backslash
+    pre-pass, key = leading [A-Za-z0-9_.]*, blanks, operator ':' (field) or '=' (variable, expanded
+    at definition time), value without surrounding blanks.  Returns (vars, fields) with fields
+    unexpanded, or None if a line is continued or malformed."""
+    vars = [('pcfiledir', pcfiledir)]
+    fields = []
+    for raw in text.split('\n'):
+        line = fgetline(raw)
+        if line is None:
+            return None
+        i = 0
+        n = len(line)
+        while i < n and line[i] in KEYCHARS:
+            i += 1
+        key = line[:i]
+        while i < n and line[i] in WS:
+            i += 1
+        if i >= n:
+            if key != '' or line.strip(WS) != '':
+                return None          # a line without an operator: warning, declined
+            continue
+        op = line[i]
+        if key == '' or (op != ':' and op != '='):
+            return None
+        i += 1
+        while i < n and line[i] in WS:
+            i += 1
+        j = n
+        while j > i and line[j - 1] in WS:
+            j -= 1
+        value = line[i:j]
+        if op == '=':
+            if value[:1] == "'" or value[:1] == '"':
+                return None          # values starting with a quote are de-quoted: declined
+            e = expand(value, vars)
+            if e is None:
+                return None
+            vars.append((key, e))
+        else:
+            fields.append((key, value))
+    return vars, fields
+
+
+def flags(text, pcfiledir, name):
+    """what `pkg-config --cflags` (name='Cflags') or `--libs` (name='Libs') prints for the file"""
+    r = pcfile(text, pcfiledir)
+    if r is None:
+        return None
+    vars, fields = r
+    out = ''
+    for k, v in fields:
+        if k == name:
+            f = field(v, vars, already_read=True)
+            if f is None:
+                return None
+            out += f
     return out
